@@ -42,6 +42,7 @@ def items():
 def main():
     args = sys.argv[1:]
     tier, seed = 'quick', '0'
+    render_only = False
     names = []
     while args:
         a = args.pop(0)
@@ -49,6 +50,8 @@ def main():
             tier = args.pop(0)
         elif a == '--seed':
             seed = args.pop(0)
+        elif a == '--render':
+            render_only = True
         else:
             names.append(a)
     res_path = os.path.join(SEEDED, 'results.json')
@@ -57,10 +60,10 @@ def main():
     out_dir = '/tmp/seeded_matrix_out'
     sh(f'git -C /repo worktree remove --force {wt}')
     sh(f'rm -rf {wt} {out_dir}')
-    if sh(f'git -C /repo worktree add -q --detach {wt} HEAD').returncode != 0:
+    if not render_only and sh(f'git -C /repo worktree add -q --detach {wt} HEAD').returncode != 0:
         print('cannot create the scratch worktree')
         return 2
-    for name, patch, props in items():
+    for name, patch, props in ([] if render_only else items()):
         if names and name not in names:
             continue
         for prop in props:
@@ -90,10 +93,18 @@ def main():
     sh(f'git -C /repo worktree remove --force {wt}')
     sh(f'rm -rf {wt} {out_dir}')
     with open(os.path.join(SEEDED, 'RESULTS.md'), 'w') as fh:
+        by_change = {}
+        for r in results.values():
+            by_change.setdefault(r['change'], []).append(r)
+        caught = sum(1 for rs in by_change.values() if any(r['outcome'].startswith('caught with a failing input') for r in rs))
         fh.write('# Seeded changes against the checks\n\n'
-                 'Produced by `tools/seeded_matrix.py` (apply the change to /repo, run the check of the property it breaks, undo it).\n'
-                 'Changes `Cxx-mN` were written by independent sub-agents given only the property text; `revert-<commit>` is the reverse\n'
-                 'patch of a `fix:` commit.  On the unchanged tree every check exits 0.\n\n'
+                 'Produced by `tools/seeded_matrix.py`: each change is applied to a scratch worktree of the repository HEAD, the quick check of the\n'
+                 'property it was written for is run against it (plus the properties listed for it in `also.json`), outcome and first reported\n'
+                 'failing input are recorded.  `Cxx-mN`: written by independent sub-agents given only the property text (two rounds);\n'
+                 '`revert-<commit>`: the reverse patch of a `fix:` commit.  On the unchanged tree every check exits 0.\n\n'
+                 f'**{caught} of {len(by_change)} changes are reported with a concrete failing input by at least one check.**  The rows marked\n'
+                 '"missed" are changes whose author filed them under a property whose statement they do not contradict without a further ingredient\n'
+                 '(a seek for C01/C10, a process kill for C03/C13): the check of the property they do contradict (next row) reports them.\n\n'
                  '| change | property | tier/seed | outcome | first failing input reported |\n|---|---|---|---|---|\n')
         for key in sorted(results):
             r = results[key]
